@@ -4,7 +4,7 @@
    the leaf walk of ExtractLicenses visits every node once.  The allocator, regexp compilation and the table
    scans inside one matcher call (a constant given the shipped tables) are measured on the code, not proved. *)
 From Coq Require Import Lia.
-From Spdx Require Import Props.Shipped Model.Ticks Spec.Lex Proofs.ScanRef Proofs.Cost Proofs.ParseGrammar Proofs.ParseCost.
+From Spdx Require Import Props.Shipped Model.Ticks Spec.Lex Proofs.ScanRef Proofs.Cost Proofs.ParseGrammar Proofs.ParseCost Model.ParseStack Model.ParseStackTicks Proofs.ParseStackCost.
 Local Open Scope list_scope.
 
 Theorem C14_sizes e t : parse T0 e = Ok t -> tree_size t <= length e /\ leaf_count t <= length e.
@@ -39,6 +39,17 @@ Proof.
   pose proof (tokens_le_bytes T0 HT0 e ts H). lia.
 Qed.
 
+(* the parser AS IT IS WRITTEN (stack of operand groups; Model/ParseStack.v, cost twin Model/ParseStackTicks.v): phase
+   steps + appends + the loop of every joinOperands together are at most 5 per token plus 3 - each operand is joined
+   once, so closing a group does not re-walk what earlier closes have already chained (no quadratic re-joining) *)
+Theorem C14_parser_as_written_linear e ts : ref_tokens T0 e = Ok ts ->
+  fst (runA_t (S (length ts)) [] g0 ts) = runA (S (length ts)) [] g0 ts /\
+  snd (runA_t (S (length ts)) [] g0 ts) <= 5 * length e + 3.
+Proof.
+  intros H. destruct (stack_parser_linear ts) as [E K]. split; [assumption|].
+  pose proof (tokens_le_bytes T0 HT0 e ts H). lia.
+Qed.
+
 (* the loops that are not structurally recursive run within their fuel: |text|+1 scanner iterations,
    recursion depth 3*|tokens|+3 in the parser (C03_scanner, C03_parser) *)
 
@@ -48,5 +59,5 @@ Example C14_example :
                       [NLic (s2l "Apache-2.0") false None]) = 4.
 Proof. vm_compute. reflexivity. Qed.
 
-Definition C14_theorems := (@C14_sizes, @C14_evaluator_linear, @C14_leaf_walk_linear, @C14_parser_linear).
+Definition C14_theorems := (@C14_sizes, @C14_evaluator_linear, @C14_leaf_walk_linear, @C14_parser_linear, @C14_parser_as_written_linear).
 Redirect "assumptions/C14" Print Assumptions C14_theorems.
